@@ -76,6 +76,17 @@ theorem rolloutTraj_get (n k : Nat) (g : G) (h : k < n) :
       rw [ih k (run U S g) (by omega)]
       simp only [Function.iterate_succ_apply]
 
+/-- closed form of the whole trajectory: element `k` is the state after `k + 1` runs, and there are exactly `n` of them -/
+theorem rolloutTraj_eq_map (n : Nat) (g : G) :
+    rolloutTraj U S n g = (List.range n).map (fun k => (run U S)^[k + 1] g) := by
+  apply List.ext_getElem?
+  intro k
+  by_cases h : k < n
+  · rw [rolloutTraj_get U S n k g h, List.getElem?_map, List.getElem?_range h]; rfl
+  · have h1 : (rolloutTraj U S n g).length ≤ k := by rw [rolloutTraj_length]; omega
+    have h2 : ((List.range n).map (fun k => (run U S)^[k + 1] g)).length ≤ k := by simp; omega
+    rw [List.getElem?_eq_none h1, List.getElem?_eq_none h2]
+
 /-- finishing the supervisor after `reset(); step()ⁿ` is exactly `n + 1` `run()` calls: the two driving styles meet at
 every supervisor boundary, for every number of steps -/
 theorem reset_steps_supervisor_eq_runs (n : Nat) (g : G) :
